@@ -63,6 +63,28 @@ Section C10.
     intros Hk. exact (recover_final_data f sw kd old no_conflict batches_nonempty some_batch w delf HD _ HI Hk).
   Qed.
 
+  (* the same guarantees at every crash point of a sampler re-sow that first clears the results of an earlier sow
+     (sow_samples since the repair of D39: [resow_samples_steps], the results unlinked in any order, any subset done) *)
+  Theorem C10_resow_samples_prefix : forall st ids k w0 w delf allow,
+    reach st -> (forall s, Permutation (delf s) (del_canon s)) ->
+    let st' := crash (resow_samples_steps st ids sw w0) k st in
+    match later_reap kd allow st' with
+    | Refused | Error => True
+    | Value d => d = if allow then partial f sw st' else direct f sw
+    end
+    /\ recovered w delf st'.
+  Proof.
+    intros st ids k w0 w delf allow HR HD st'.
+    pose proof (reachable_inv f sw kd old tab no_conflict batches_nonempty _ (r_resow f sw kd old tab st ids w0 k HR)) as HI.
+    fold st' in HI. split.
+    - destruct (later_reap kd allow st') as [| |d] eqn:E; try exact I.
+      apply later_reap_val in E. pose proof (reap_val_sound f sw kd old _ allow d HI E) as H.
+      destruct allow; exact H.
+    - split; [exact (recover_exact f sw kd old no_conflict batches_nonempty some_batch w _ HI)|].
+      split; [intros x Hx; exact (recover_final_deleted f sw kd old no_conflict batches_nonempty some_batch w delf HD _ x HI Hx)|].
+      intros Hk. exact (recover_final_data f sw kd old no_conflict batches_nonempty some_batch w delf HD _ HI Hk).
+  Qed.
+
   (* ... also when the recovery itself is killed after any number j of its steps and run again *)
   Theorem C10_recovery_reentrant : forall st o k w delf j w2 delf2,
     reach st -> valid_op sw kd st o ->
@@ -261,6 +283,7 @@ Proof.
   split; [exact (proj1 bridge_sync_then_delete) | exact (proj1 (proj2 bridge_sync_then_delete))].
 Qed.
 
+Print Assumptions C10_resow_samples_prefix.
 Print Assumptions C10_no_silent_corruption.
 Print Assumptions C10_recovery_exact.
 Print Assumptions C10_recovery_reentrant.
